@@ -101,7 +101,7 @@ def gen_case(rng, tier, kind=None, N=None):
         "ubm": {"c": c, "means": L(means), "variances": L(variances), "weights": L(weights)},
         "stats": _gen_stats(rng, N, c, d, means, variances),
         "y": y,
-        "yform": rng.choice(["list", "array", "bag"]),
+        "yform": rng.choice(["list", "array", "bag", "int32", "uint8", "tuple"]),
         "layout": _gen_layout(rng, N),
         "cfg": {"rU": rng.randint(1, 3), "rV": rng.randint(1, 2), "it": rng.randint(1, 3),
                 "rf": rng.choice([4.0, 1.0, 10.0]), "rs": rng.randint(0, 1000),
@@ -231,6 +231,10 @@ def _bag(case, stats):
 def _labels(case, for_bag):
     y = case["y"]
     f = case["yform"]
+    if f == "tuple":
+        return tuple(y) if for_bag else np.array(y)
+    if f in ("int32", "uint8"):
+        return np.array(y, dtype=getattr(np, f))
     if f == "list" and for_bag:
         return list(y)
     if f == "bag" and for_bag:
